@@ -320,6 +320,8 @@ pub enum Call {
         #[serde(default)]
         unchecked: bool,
     },
+    /// put_slice / write of a slice of 2^32 + k bytes ("all slice lengths"): can never fit, must be refused cleanly
+    PutHugeSlice { k: u16, write: bool },
     /// get_slice / get_slice_mut (and their unchecked variants when `size` bytes are there) over the written prefix
     GetSlice {
         size: u16,
@@ -394,6 +396,7 @@ fn call_strategy() -> BoxedStrategy<Call> {
         4 => (vt.clone(), vals(), any::<bool>()).prop_map(|(t, raw, write)| Call::PutVar { t, raw, write }),
         2 => vt.prop_map(|t| Call::GetVar { t }),
         3 => (0u16..100, any::<bool>(), prop::bool::weighted(0.3)).prop_map(|(len, write, unchecked)| Call::PutSlice { len, write, unchecked }),
+        1 => (prop_oneof![2 => Just(0u16), 2 => 0u16..100, 1 => any::<u16>()], any::<bool>()).prop_map(|(k, write)| Call::PutHugeSlice { k, write }),
         2 => (any::<u16>(), any::<bool>(), prop::bool::weighted(0.3)).prop_map(|(size, mutable, unchecked)| Call::GetSlice { size, mutable, unchecked }),
         3 => any::<u16>().prop_map(|l| Call::SetLen { l }),
         4 => (0..nt + 2).prop_map(|ty| Call::AlignTo { ty }),
@@ -725,6 +728,27 @@ fn run_calls<A: Flavor, B: Buf>(
                         "get-wrote",
                         "call {ci} {call:?}: a varint get changed memory or len"
                     ));
+                }
+            }
+            Call::PutHugeSlice { k, write } => {
+                // one untouched (calloc'ed, never faulted in) block per process
+                static HUGE: std::sync::OnceLock<Vec<u8>> = std::sync::OnceLock::new();
+                let huge = HUGE.get_or_init(|| vec![0u8; (1usize << 32) + (1 << 16)]);
+                let n = (1usize << 32) + *k as usize;
+                let r = guard("put_slice (2^32 + k bytes)", "C14", || b.put_slice_(&huge[..n], *write, false))?;
+                let after = mem(arena);
+                check_outside!("put-slice", after);
+                cx.classes.insert("slice-of-4GiB-or-more");
+                match r {
+                    Ok(()) => {
+                        return Err(viol!("C14", "put-accepted-overflow", "call {ci} {call:?}: a slice of {n} bytes accepted with len {len0}, capacity {cap}"));
+                    }
+                    Err(_) => {
+                        if after != before || b.b_len() != len0 {
+                            return Err(viol!("C14", "failed-put-effect", "call {ci} {call:?}: failed but changed bytes or len"));
+                        }
+                        cx.classes.insert("put-refused");
+                    }
                 }
             }
             Call::GetSlice {
@@ -1240,7 +1264,7 @@ impl Prop for C14 {
         scale(tier, 1_000_000, 12_000_000)
     }
     fn rule() -> &'static str {
-        "a buffer (fresh alloc_bytes / recycled from the free list / alloc_aligned_bytes::<T> at an odd cursor / both; borrowed or owned; capacity 0..96) inside an arena whose every other byte is a canary, pre-filled to a generated len, then 1..5 generated calls: put_*/write_* for 12 integer types x {be,le,ne} x boundary/random values, get_*, put+get round trips, LEB128 puts (+ get on an empty buffer), put_slice/write, get_slice/get_slice_mut over the written prefix, set_len, align_to/put/put_aligned over the type table plus two over-aligned types (32, 64; only on arenas whose maximum alignment - 16, 32 or 64 by case - allows them), on a third of the unsync cases after the arena was resized (truncate) before anything was allocated; the *_unchecked twins (put_u8/put_i8/put_slice/get_u8/get_i8/get_slice/get_slice_mut) are called instead whenever the harness knows the call is inside their contract, and judged by the same oracle. Oracle: whole-memory() snapshot before/after each call: bytes outside [offset, offset+capacity) unchanged, len law, value bytes equal a reference encoder, failed fixed-width puts change nothing, set_len zero-fills exactly the exposed/hidden bytes, align_to pointers aligned and inside the buffer. Non-trivial = a call within size_of bytes of the capacity boundary, or a buffer whose offset differs from its buffer_offset"
+        "a buffer (fresh alloc_bytes / recycled from the free list / alloc_aligned_bytes::<T> at an odd cursor / both; borrowed or owned; capacity 0..96) inside an arena whose every other byte is a canary, pre-filled to a generated len, then 1..5 generated calls: put_*/write_* for 12 integer types x {be,le,ne} x boundary/random values, get_*, put+get round trips, LEB128 puts (+ get on an empty buffer), put_slice/write (slice lengths 0..100 and 2^32 + k), get_slice/get_slice_mut over the written prefix, set_len, align_to/put/put_aligned over the type table plus two over-aligned types (32, 64; only on arenas whose maximum alignment - 16, 32 or 64 by case - allows them), on a third of the unsync cases after the arena was resized (truncate) before anything was allocated; the *_unchecked twins (put_u8/put_i8/put_slice/get_u8/get_i8/get_slice/get_slice_mut) are called instead whenever the harness knows the call is inside their contract, and judged by the same oracle. Oracle: whole-memory() snapshot before/after each call: bytes outside [offset, offset+capacity) unchanged, len law, value bytes equal a reference encoder, failed fixed-width puts change nothing, set_len zero-fills exactly the exposed/hidden bytes, align_to pointers aligned and inside the buffer. Non-trivial = a call within size_of bytes of the capacity boundary, or a buffer whose offset differs from its buffer_offset"
     }
     fn simplify(c: &CaseC14) -> Vec<CaseC14> {
         let mut out = Vec::new();
